@@ -29,15 +29,88 @@ import (
 
 // graph is the input of one op: keys in op-line order, adjacency lists as
 // written (order and duplicates kept).  Node i is named by its zero padded
-// decimal so that Go's string order is the numeric order.
+// decimal so that Go's string order is the numeric order, or, when the op
+// carries a `names=<scheme>` word, by the i-th string of a sorted list of names
+// whose concatenations collide ("1"+"23" == "12"+"3"): code that keys a set by
+// concatenated names confuses such nodes, the model keys by node identity.
 type graph struct {
 	keys []int
 	adj  map[int][]int
+	sc   *scheme
 }
 
-func name(i int) string { return fmt.Sprintf("%04d", i) }
+// scheme is a sorted list of node names; ids beyond the list get "~%04d",
+// which sorts after every listed name.
+type scheme struct {
+	id    string
+	names []string
+	idx   map[string]int
+}
 
-func unname(s string) int {
+func newScheme(id string, names []string) *scheme {
+	ns := append([]string(nil), names...)
+	sort.Strings(ns)
+	sc := &scheme{id: id, names: ns, idx: map[string]int{}}
+	for i, n := range ns {
+		sc.idx[n] = i
+	}
+	return sc
+}
+
+func allStrings(alphabet string, maxLen int) []string {
+	var out []string
+	cur := []string{""}
+	for l := 1; l <= maxLen; l++ {
+		var next []string
+		for _, p := range cur {
+			for _, ch := range alphabet {
+				next = append(next, p+string(ch))
+			}
+		}
+		out = append(out, next...)
+		cur = next
+	}
+	return out
+}
+
+var schemes = func() map[string]*scheme {
+	m := map[string]*scheme{}
+	for _, sc := range []*scheme{
+		newScheme("d4a", []string{"1", "12", "23", "3"}),
+		newScheme("d4b", []string{"12", "123", "2", "3"}),
+		newScheme("d4c", []string{"1", "11", "111", "2"}),
+		newScheme("d4d", []string{"1", "12", "2", "21"}),
+		newScheme("l4", []string{"a", "ab", "b", "ba"}),
+		newScheme("d3", allStrings("123", 3)),
+		newScheme("l2", allStrings("ab", 4)),
+	} {
+		m[sc.id] = sc
+	}
+	return m
+}()
+
+var smallSchemes = []string{"d4a", "d4b", "d4c", "d4d", "l4"}
+
+func (sc *scheme) name(i int) string {
+	if sc == nil {
+		return fmt.Sprintf("%04d", i)
+	}
+	if i < len(sc.names) {
+		return sc.names[i]
+	}
+	return fmt.Sprintf("~%04d", i)
+}
+
+func (sc *scheme) unname(s string) int {
+	if sc != nil {
+		if i, ok := sc.idx[s]; ok {
+			return i
+		}
+		if !strings.HasPrefix(s, "~") {
+			return -1
+		}
+		s = s[1:]
+	}
 	n, err := strconv.Atoi(s)
 	if err != nil {
 		return -1
@@ -47,6 +120,12 @@ func unname(s string) int {
 
 func (g *graph) words() string {
 	var b strings.Builder
+	if g.sc != nil {
+		b.WriteString("names=" + g.sc.id)
+		if len(g.keys) > 0 {
+			b.WriteByte(' ')
+		}
+	}
 	for i, k := range g.keys {
 		if i > 0 {
 			b.WriteByte(' ')
@@ -69,6 +148,14 @@ func (g *graph) words() string {
 func parseGraph(ws []string) (*graph, bool) {
 	g := &graph{adj: map[int][]int{}}
 	for _, w := range ws {
+		if strings.HasPrefix(w, "names=") {
+			sc, ok := schemes[w[6:]]
+			if !ok {
+				return nil, false
+			}
+			g.sc = sc
+			continue
+		}
 		p := strings.Split(w, ":")
 		if len(p) != 2 {
 			return nil, false
@@ -101,9 +188,9 @@ func (g *graph) dags() *dags.Graph {
 	for _, k := range g.keys {
 		var outs []string
 		for _, v := range g.adj[k] {
-			outs = append(outs, name(v))
+			outs = append(outs, g.sc.name(v))
 		}
-		m[name(k)] = outs
+		m[g.sc.name(k)] = outs
 	}
 	return dags.NewGraph(m)
 }
@@ -271,7 +358,7 @@ func shrink(op, key string, limit time.Duration) string {
 	}
 	t0 := time.Now()
 	without := func(h *graph, drop map[int]bool) *graph {
-		r := &graph{adj: map[int][]int{}}
+		r := &graph{adj: map[int][]int{}, sc: h.sc}
 		for _, k := range h.keys {
 			if drop[k] {
 				continue
@@ -348,17 +435,17 @@ func sortedInts(xs []int) string {
 	return b.String()
 }
 
-func keysOf(m map[string]*dags.MapNode) []int {
+func keysOf(sc *scheme, m map[string]*dags.MapNode) []int {
 	xs := make([]int, 0, len(m))
 	for k := range m {
-		xs = append(xs, unname(k))
+		xs = append(xs, sc.unname(k))
 	}
 	return xs
 }
 
 // classify maps an error of CheckDAG / NewMap to the small enum; for a
 // reported cycle it also returns the nodes.
-func classify(err error) (string, []int) {
+func classify(sc *scheme, err error) (string, []int) {
 	if err == nil {
 		return "ok", nil
 	}
@@ -369,7 +456,7 @@ func classify(err error) (string, []int) {
 	case strings.HasPrefix(msg, "graph has circle: "):
 		var cyc []int
 		for _, p := range strings.Split(strings.TrimPrefix(msg, "graph has circle: "), "->") {
-			cyc = append(cyc, unname(p))
+			cyc = append(cyc, sc.unname(p))
 		}
 		return "circle " + strconv.Itoa(len(cyc)), cyc
 	}
@@ -419,6 +506,8 @@ func (c *ctx) runOp(line string) result {
 		return c.opCheck(line, g)
 	case "probe":
 		return result{out: c.opProbe(line)}
+	case "bigcheck", "bigmap":
+		return result{out: guardOp(c, line, func() string { return c.opBig(line, g, ws[0] == "bigmap") })}
 	case "map":
 		return result{out: guardOp(c, line, func() string { return c.opMap(line, g) })}
 	case "layout":
@@ -426,7 +515,7 @@ func (c *ctx) runOp(line string) result {
 	case "revlayout":
 		return result{out: guardOp(c, line, func() string { return c.opLayout(line, g, true) })}
 	case "rev":
-		return result{out: guardOp(c, line, func() string { return showGraph(fromDags(g.dags().Reverse())) })}
+		return result{out: guardOp(c, line, func() string { return showGraph(fromDags(g.sc, g.dags().Reverse())) })}
 	case "rev2":
 		return result{out: guardOp(c, line, func() string { return c.opRev2(line, g) })}
 	}
@@ -455,7 +544,7 @@ func (c *ctx) opCheckN(line string, g *graph, cyclicReps int) result {
 	for r := 0; r < reps; r++ {
 		var cyc []int
 		out := guard(func() string {
-			s, cy := classify(dags.CheckDAG(g.dags()))
+			s, cy := classify(g.sc, dags.CheckDAG(g.dags()))
 			cyc = cy
 			return s
 		})
@@ -528,7 +617,7 @@ func cycleDefect(g *graph, t *truth, cyc []int) string {
 func (c *ctx) opMap(line string, g *graph) string {
 	m, err := dags.NewMap(g.dags())
 	if err != nil {
-		s, _ := classify(err)
+		s, _ := classify(g.sc, err)
 		return s
 	}
 	t := analyse(g, true)
@@ -539,7 +628,7 @@ func (c *ctx) opMap(line string, g *graph) string {
 	layer := map[int]int{}
 	for i, l := range m.SortedLayers() {
 		for _, nd := range l {
-			layer[unname(nd.Name)] = i
+			layer[g.sc.unname(nd.Name)] = i
 		}
 	}
 	keys := append([]int(nil), g.keys...)
@@ -548,7 +637,7 @@ func (c *ctx) opMap(line string, g *graph) string {
 	fmt.Fprintf(&b, "ok nl=%d ne=%d nc=%d", m.Nlayer, m.Nedge, m.Ncrit)
 	ncrit := 0
 	for _, k := range keys {
-		nd := m.Nodes[name(k)]
+		nd := m.Nodes[g.sc.name(k)]
 		if nd == nil {
 			c.fail("map-node-lost", "a node of the graph is not in the map", line)
 			return "node-lost"
@@ -557,14 +646,14 @@ func (c *ctx) opMap(line string, g *graph) string {
 		if !ok {
 			c.fail("map-node-unlayered", "a node is in no layer", line)
 		}
-		fmt.Fprintf(&b, " %d;%d;%s;%s;%s;%s;%s;%s", k, l, sortedInts(keysOf(nd.Ins)), sortedInts(keysOf(nd.Outs)),
-			sortedInts(keysOf(nd.AllIns)), sortedInts(keysOf(nd.AllOuts)), sortedInts(keysOf(nd.CritIns)), sortedInts(keysOf(nd.CritOuts)))
+		fmt.Fprintf(&b, " %d;%d;%s;%s;%s;%s;%s;%s", k, l, sortedInts(keysOf(g.sc, nd.Ins)), sortedInts(keysOf(g.sc, nd.Outs)),
+			sortedInts(keysOf(g.sc, nd.AllIns)), sortedInts(keysOf(g.sc, nd.AllOuts)), sortedInts(keysOf(g.sc, nd.CritIns)), sortedInts(keysOf(g.sc, nd.CritOuts)))
 		// direct oracle against the textbook facts
 		i := t.idx[k]
 		set := func(mm map[string]*dags.MapNode) []bool {
 			r := make([]bool, t.n)
 			for nm := range mm {
-				if j, ok := t.idx[unname(nm)]; ok {
+				if j, ok := t.idx[g.sc.unname(nm)]; ok {
 					r[j] = true
 				} else {
 					c.fail("map-unknown-node", "a node set names a node that is not in the graph", line)
@@ -636,7 +725,7 @@ func (c *ctx) opLayout(line string, g *graph, rev bool) string {
 		_, v, err = dags.Layout(g.dags())
 	}
 	if err != nil {
-		s, _ := classify(err)
+		s, _ := classify(g.sc, err)
 		return s
 	}
 	t := analyse(g, false)
@@ -667,7 +756,7 @@ func (c *ctx) opLayout(line string, g *graph, rev bool) string {
 	at := map[pt]int{}
 	pos := map[int]pt{}
 	for _, k := range keys {
-		nv := v.Nodes[name(k)]
+		nv := v.Nodes[g.sc.name(k)]
 		if nv == nil {
 			c.fail("layout-node-lost", "a node of the graph has no coordinates", line)
 			return "node-lost"
@@ -703,15 +792,15 @@ func (c *ctx) opLayout(line string, g *graph, rev bool) string {
 	return b.String()
 }
 
-func fromDags(d *dags.Graph) *graph {
+func fromDags(sc *scheme, d *dags.Graph) *graph {
 	g := &graph{adj: map[int][]int{}}
 	for k, vs := range d.Nodes {
-		g.keys = append(g.keys, unname(k))
+		g.keys = append(g.keys, sc.unname(k))
 		var outs []int
 		for _, v := range vs {
-			outs = append(outs, unname(v))
+			outs = append(outs, sc.unname(v))
 		}
-		g.adj[unname(k)] = outs
+		g.adj[sc.unname(k)] = outs
 	}
 	sort.Ints(g.keys)
 	return g
@@ -728,7 +817,7 @@ func showGraph(g *graph) string {
 }
 
 func (c *ctx) opRev2(line string, g *graph) string {
-	r2 := fromDags(g.dags().Reverse().Reverse())
+	r2 := fromDags(g.sc, g.dags().Reverse().Reverse())
 	t := analyse(g, false)
 	if t.closed {
 		// reversing twice gives the graph back (adjacency lists come back sorted)
@@ -744,6 +833,173 @@ func (c *ctx) opRev2(line string, g *graph) string {
 		}
 	}
 	return showGraph(r2)
+}
+
+// ---------------------------------------------------------------- very wide graphs (no model, sparse oracle)
+
+// sparseFacts: closedness and acyclicity by an iterative three-colour DFS on
+// adjacency lists (no n x n matrix), for graphs of tens of thousands of nodes.
+func sparseFacts(g *graph) (closed, acyclic bool) {
+	isKey := make(map[int]bool, len(g.keys))
+	for _, k := range g.keys {
+		isKey[k] = true
+	}
+	closed, acyclic = true, true
+	color := make(map[int]int8, len(g.keys))
+	type frame struct{ u, i int }
+	for _, root := range g.keys {
+		if color[root] != 0 {
+			continue
+		}
+		stack := []frame{{root, 0}}
+		color[root] = 1
+		for len(stack) > 0 {
+			f := &stack[len(stack)-1]
+			outs := g.adj[f.u]
+			if f.i >= len(outs) {
+				color[f.u] = 2
+				stack = stack[:len(stack)-1]
+				continue
+			}
+			v := outs[f.i]
+			f.i++
+			if !isKey[v] {
+				closed = false
+				continue
+			}
+			switch color[v] {
+			case 1:
+				acyclic = false
+			case 0:
+				color[v] = 1
+				stack = append(stack, frame{v, 0})
+			}
+		}
+	}
+	return
+}
+
+// opBig is CheckDAG (and NewMap with its layers) on a graph too large for the
+// matrix oracles and for the model: accept/reject, reality of a reported cycle,
+// layers strictly increasing along every edge.
+func (c *ctx) opBig(line string, g *graph, withMap bool) string {
+	closed, acyclic := sparseFacts(g)
+	out, cyc := classify(g.sc, dags.CheckDAG(g.dags()))
+	accepted := out == "ok"
+	switch {
+	case accepted && !closed:
+		c.fail("accept-dangling", "CheckDAG accepted a graph with an edge to a missing node", line)
+	case accepted && !acyclic:
+		c.fail("accept-cyclic", fmt.Sprintf("CheckDAG accepted a cyclic graph of %d nodes", len(g.keys)), line)
+	case !accepted && closed && acyclic:
+		c.fail("reject-dag", "CheckDAG rejected an acyclic graph whose edge targets all exist: "+out, line)
+	}
+	if cyc != nil {
+		has := func(u, v int) bool {
+			for _, x := range g.adj[u] {
+				if x == v {
+					return true
+				}
+			}
+			return false
+		}
+		seen := map[int]bool{}
+		for i, u := range cyc {
+			if seen[u] {
+				c.fail("cycle-not-simple", fmt.Sprintf("reported cycle %v repeats a node", cyc), line)
+			}
+			seen[u] = true
+			if !has(u, cyc[(i+1)%len(cyc)]) {
+				c.fail("cycle-not-real", fmt.Sprintf("reported cycle %v: no edge %d->%d", cyc, u, cyc[(i+1)%len(cyc)]), line)
+				break
+			}
+		}
+	}
+	if !withMap {
+		return out
+	}
+	m, err := dags.NewMap(g.dags())
+	if err != nil {
+		s, _ := classify(g.sc, err)
+		if s != out {
+			c.fail("check-map-differ", "CheckDAG said "+out+", NewMap said "+s, line)
+		}
+		return out
+	}
+	if !closed || !acyclic {
+		c.fail("accept-bad-map", fmt.Sprintf("NewMap accepted a graph of %d nodes that is cyclic or has a dangling edge", len(g.keys)), line)
+		return "ok-unexpected"
+	}
+	layer := make(map[int]int, len(g.keys))
+	for i, l := range m.SortedLayers() {
+		for _, nd := range l {
+			layer[g.sc.unname(nd.Name)] = i
+		}
+	}
+	if len(layer) != len(g.keys) {
+		c.fail("map-node-unlayered", fmt.Sprintf("%d of %d nodes are in a layer", len(layer), len(g.keys)), line)
+	}
+	for _, u := range g.keys {
+		for _, v := range g.adj[u] {
+			if !(layer[u] < layer[v]) {
+				c.fail("layer-not-mono", fmt.Sprintf("edge %d->%d but layers %d, %d (graph of %d nodes)", u, v, layer[u], layer[v], len(g.keys)), line)
+				return fmt.Sprintf("ok nl=%d", m.Nlayer)
+			}
+		}
+	}
+	return fmt.Sprintf("ok nl=%d", m.Nlayer)
+}
+
+// wideGraph: one hub with k spokes.  fanIn: every spoke -> hub, else hub -> every
+// spoke.  variant 0: nothing else; 1: spoke -> spoke edges that put some spokes
+// into deeper layers; 2: additionally a path that closes a cycle through the hub.
+// ids are shuffled by `lab` (nil = identity), key order by `ord`.
+func wideGraph(k int, fanIn bool, variant int, lab, ord []int) *graph {
+	id := func(i int) int {
+		if lab == nil {
+			return i
+		}
+		return lab[i]
+	}
+	n := k + 2 // hub 0, spokes 1..k, extra k+1
+	adj := make(map[int][]int, n)
+	for i := 0; i < n; i++ {
+		adj[id(i)] = nil
+	}
+	add := func(u, v int) { adj[id(u)] = append(adj[id(u)], id(v)) }
+	for i := 1; i <= k; i++ {
+		if fanIn {
+			add(i, 0)
+		} else {
+			add(0, i)
+		}
+	}
+	if variant >= 1 && k >= 4 {
+		add(1, 2) // spoke 2 one layer deeper than the other spokes
+		add(2, 3)
+	}
+	if variant == 2 {
+		if fanIn {
+			add(0, k+1) // hub -> extra -> spoke 1
+			add(k+1, 1)
+		} else {
+			add(k, k+1) // spoke k -> extra -> hub
+			add(k+1, 0)
+		}
+	} else if fanIn {
+		add(0, k+1) // a successor of the hub: it must lie above every spoke
+	} else {
+		add(k+1, 0)
+	}
+	g := &graph{adj: adj}
+	for i := 0; i < n; i++ {
+		j := i
+		if ord != nil {
+			j = ord[i]
+		}
+		g.keys = append(g.keys, id(j))
+	}
+	return g
 }
 
 // ---------------------------------------------------------------- generators
@@ -856,6 +1112,36 @@ func (ge *gen) layeredDAG(w, d, k int) *graph {
 	return g
 }
 
+// rename maps the ids of g injectively into the ids of a naming scheme.
+func (ge *gen) rename(g *graph, sc *scheme) *graph {
+	p := ge.perm(len(sc.names))
+	m := map[int]int{}
+	next := 0
+	id := func(x int) int {
+		if y, ok := m[x]; ok {
+			return y
+		}
+		if x >= 5000 || next >= len(p) { // dangling targets keep their id
+			return x
+		}
+		m[x] = p[next]
+		next++
+		return m[x]
+	}
+	r := &graph{adj: map[int][]int{}, sc: sc}
+	for _, k := range g.keys {
+		r.keys = append(r.keys, id(k))
+	}
+	for _, k := range g.keys {
+		var outs []int
+		for _, v := range g.adj[k] {
+			outs = append(outs, id(v))
+		}
+		r.adj[id(k)] = outs
+	}
+	return r
+}
+
 func (ge *gen) addBackEdges(g *graph, k int) {
 	n := len(g.keys)
 	for i := 0; i < k; i++ {
@@ -925,7 +1211,15 @@ func (c *ctx) batch(driver string, ops []string, register bool) {
 			}
 		}
 	}
-	all := append(append([]string{}, ops...), memberOps...)
+	var drvIdx []int // ops the model sees ("big..." ops are oracle-only)
+	var all []string
+	for i, op := range ops {
+		if !strings.HasPrefix(op, "big") {
+			drvIdx = append(drvIdx, i)
+			all = append(all, op)
+		}
+	}
+	all = append(all, memberOps...)
 	dImpl := time.Since(tImpl).Seconds()
 	tDrv := time.Now()
 	model, err := hx.RunDriver(driver, nil, all)
@@ -940,7 +1234,7 @@ func (c *ctx) batch(driver string, ops []string, register bool) {
 	}
 	if register {
 		for i, op := range ops {
-			c.rep.Case(op, true)
+			c.rep.Case(caseKey(op), true)
 			kind := strings.SplitN(op, " ", 2)[0]
 			out := impl[i]
 			if j := strings.IndexByte(out, ' '); j > 0 {
@@ -962,18 +1256,31 @@ func (c *ctx) batch(driver string, ops []string, register bool) {
 	if model == nil {
 		return
 	}
-	for i := range ops {
-		if impl[i] != model[i] {
-			c.rep.Disagree("dags", ops[i], clip(impl[i]), clip(model[i]))
+	for j, i := range drvIdx {
+		if impl[i] != model[j] {
+			c.rep.Disagree("dags", clip(ops[i]), clip(impl[i]), clip(model[j]))
 		}
 	}
 	for i, op := range memberOps {
-		if model[len(ops)+i] != "yes" {
-			c.rep.Disagree("dags-cycle", op, "reported", model[len(ops)+i])
+		if model[len(drvIdx)+i] != "yes" {
+			c.rep.Disagree("dags-cycle", clip(op), "reported", model[len(drvIdx)+i])
 		}
 	}
 	c.rep.TracesValidated += len(all)
 	c.rep.Count("member-lines")
+}
+
+// caseKey is the canonical form of a case: the op line, or for very long lines
+// its kind, length and FNV-1a hash.
+func caseKey(op string) string {
+	if len(op) <= 4096 {
+		return op
+	}
+	h := uint64(14695981039346656037)
+	for i := 0; i < len(op); i++ {
+		h = (h ^ uint64(op[i])) * 1099511628211
+	}
+	return fmt.Sprintf("%s#len=%d#%016x", op[:strings.IndexByte(op, ' ')], len(op), h)
 }
 
 func clip(s string) string {
@@ -1108,7 +1415,7 @@ func main() {
 			fmt.Println("bad-op")
 			return
 		}
-		s, _ := classify(dags.CheckDAG(g.dags()))
+		s, _ := classify(g.sc, dags.CheckDAG(g.dags()))
 		fmt.Println(s)
 		return
 	}
@@ -1178,6 +1485,59 @@ func main() {
 	})
 	rep.Exhaustive = true
 	mark("exhaustive-4")
+	// 2b. the same 65 536 digraphs under each set of four names whose
+	//     concatenations collide (CheckDAG and the reported cycle)
+	for _, sid := range smallSchemes {
+		sc := schemes[sid]
+		parallel(1<<16, 4096, func(lo, hi int) {
+			ops := make([]string, 0, hi-lo)
+			for bits := lo; bits < hi; bits++ {
+				g := fromMatrix(4, uint64(bits), 0)
+				g.sc = sc
+				ops = append(ops, "check "+g.words())
+			}
+			c.batch(f.Driver, ops, true)
+		})
+		rep.Count("exhaustive-n4-names:" + sid)
+	}
+	mark("exhaustive-4-colliding-names")
+	// 2c. wide graphs at the widths where narrow counters wrap: a hub with k
+	//     predecessors (or successors), plain, with spokes in deeper layers, and
+	//     with a cycle through the hub.  Up to 512 against the model; 2^16 +- 1
+	//     against the sparse oracle only.
+	if !c.failed() {
+		var ops []string
+		for _, k := range []int{255, 256, 257, 300, 511, 512} {
+			for _, fanIn := range []bool{true, false} {
+				for v := 0; v < 3; v++ {
+					w := wideGraph(k, fanIn, v, nil, nil).words()
+					ops = append(ops, "check "+w)
+					switch {
+					case v == 2:
+					case thorough || (fanIn && (k == 257 || k == 300)):
+						ops = append(ops, "map "+w, "layout "+w)
+					default:
+						ops = append(ops, "bigmap "+w)
+					}
+					rep.Count("wide-deterministic")
+				}
+			}
+		}
+		for _, k := range []int{65535, 65536, 65537} {
+			for v := 0; v < 3; v++ {
+				w := wideGraph(k, true, v, nil, nil).words()
+				if v == 2 {
+					ops = append(ops, "bigcheck "+w)
+				} else {
+					ops = append(ops, "bigmap "+w)
+				}
+				ops = append(ops, "bigcheck "+wideGraph(k, false, v, nil, nil).words())
+				rep.Count("wide-deterministic-2^16")
+			}
+		}
+		parallel(len(ops), 1, func(lo, hi int) { c.batch(f.Driver, ops[lo:hi], true) })
+	}
+	mark("wide")
 	// 3. exhaustive: all 29 281 DAGs on 5 nodes (map, layout); all digraphs on 5 nodes in the thorough tier
 	{
 		var dagsBits []uint64
@@ -1318,6 +1678,34 @@ func main() {
 		u := g.keys[ge.r.Intn(len(g.keys))]
 		g.adj[u] = append(g.adj[u], 5000+ge.r.Intn(3))
 		add("dangling", g)
+	}
+	// names whose concatenations collide: half of the small random graphs are renamed
+	for i := range jobs {
+		g := jobs[i].g
+		if len(g.keys) <= 12 && (jobs[i].class == "dag-small" || jobs[i].class == "digraph-small") && ge.r.Bool() {
+			jobs[i].g = ge.rename(g, schemes[hx.Pick(ge.r, []string{"d3", "l2"})])
+			jobs[i].class += "-colliding-names"
+		}
+	}
+	for i := 0; i < 2500*scale; i++ { // few edges: one or two cycles, so that one missed visit changes the answer
+		g := ge.randomDigraph(4+ge.r.Intn(6), 60+ge.r.Intn(200))
+		add("digraph-small-colliding-names", ge.rename(g, schemes[hx.Pick(ge.r, []string{"d3", "l2"})]))
+	}
+	// wide graphs: counters and sets with hundreds of entries per node
+	for i := 0; i < 8*scale; i++ {
+		k := 200 + ge.r.Intn(400)
+		if ge.r.Intn(3) == 0 {
+			k = hx.Pick(ge.r, []int{254, 255, 256, 257, 258, 511, 512, 513})
+		}
+		lab := ge.perm(k + 2)
+		g := wideGraph(k, ge.r.Intn(4) != 0, ge.r.Intn(3), lab, ge.perm(k+2))
+		for e := ge.r.Intn(4); e > 0; e-- { // a few more edges between spokes
+			a, b := 1+ge.r.Intn(k), 1+ge.r.Intn(k)
+			if a < b { // only from lower to higher spoke index: the variant stays (a)cyclic
+				g.adj[lab[a]] = append(g.adj[lab[a]], lab[b])
+			}
+		}
+		add("wide", g)
 	}
 	sizes := map[string]int{}
 	for _, jb := range jobs {
